@@ -162,6 +162,11 @@ func mapStructFieldsIntoSlice(v reflect.Value, columns []string, strict bool) ([
 
 	values := make([]any, len(columns))
 	if len(taggedMap) == 0 {
+		// 按位置映射时，多出的列没有可对应的字段。
+		if len(columns) > len(fields) {
+			return nil, ErrNotMatchDestination
+		}
+
 		for i := 0; i < len(values); i++ {
 			valueField := fields[i]
 			switch valueField.Kind() {
